@@ -310,3 +310,43 @@ def refine_f32_locate_panic(case, tag, event):
             and bool(case.ops) and case.ops[-1].split()[0] == "refine")
 
 KNOWN_CLASSES["refine_f32_locate_panic"] = refine_f32_locate_panic
+
+def nn_weights_nan_near_hull(case, tag, event):
+    """NaturalNeighbor::get_weights returns NaN weights for a query strictly inside the convex hull but within a relative 1e-12 of a hull edge
+    (the circumcentre of the query and the two hull vertices is astronomically far away; inf - inf in the area sums)"""
+    if tag != "interp" or not case.ops or case.ops[-1].split()[0] != "nnw":
+        return False
+    out = _run(case)
+    lines = out.splitlines()
+    rl = [l for l in lines if l.startswith("R ")]
+    sl = [l for l in lines if l.startswith("S ") and "V" in l.split()]
+    if not rl or not sl:
+        return False
+    r = rl[-1].split()
+    try:
+        n = int(r[1])
+        ws = [int(r[3 + 2 * k]) for k in range(n)]
+    except Exception:
+        return False
+    def is_nan(b):
+        return (b >> 52) & 0x7ff == 0x7ff and (b & ((1 << 52) - 1)) != 0
+    if not any(is_nan(b) for b in ws):
+        return False
+    t = sl[-1].split()
+    nv, ne, nf, V, E = _parse_state(t)
+    q = case.ops[-1].split()
+    qx, qy = _fb(q[1]), _fb(q[2])
+    P = [(x, y) for x, y, _ in V]
+    for e in range(2 * ne):
+        nx, pv, fc, og = E[e]
+        if fc != 0:
+            continue
+        a, b = P[og], P[E[e ^ 1][3]]
+        o = (b[0] - a[0]) * (qy - a[1]) - (b[1] - a[1]) * (qx - a[0])
+        l2 = (b[0] - a[0]) ** 2 + (b[1] - a[1]) ** 2
+        d2 = (qx - a[0]) ** 2 + (qy - a[1]) ** 2
+        if o != 0 and o * o <= Fraction(1, 10 ** 24) * l2 * max(d2, l2):
+            return True
+    return False
+
+KNOWN_CLASSES["nn_weights_nan_near_hull"] = nn_weights_nan_near_hull
